@@ -13,6 +13,10 @@ HI == [rest |-> FALSE, items |-> <<Obj(<<"C">>, 9)>>]
 LO == [rest |-> FALSE, items |-> <<Obj(<<"E">>, 4), Obj(<<"C">>, 2)>>]
 \* a chord whose out-of-range note is neither its first nor its last item
 MID == [rest |-> FALSE, items |-> <<Obj(<<"C">>, 4), Obj(<<"C">>, 9), Obj(<<"E">>, 4), Obj(<<"G">>, 4)>>]
+\* names spelled across the octave line at the ends of the instruments' ranges: Cb-8 is the pitch B-7, B#-8 the pitch C-9
+CB8 == [rest |-> FALSE, items |-> <<Obj(<<"C","b">>, 8)>>]
+BS8 == [rest |-> FALSE, items |-> <<Obj(<<"B","#">>, 8)>>]
+CB3 == [rest |-> FALSE, items |-> <<Obj(<<"C","b">>, 3)>>]
 RS == [rest |-> TRUE, items |-> <<>>]
 It(root, sh, depth) == [rest |-> FALSE, root |-> root, sh |-> sh, depth |-> depth]
 ItR(depth) == [rest |-> TRUE, root |-> <<"C">>, sh |-> "", depth |-> depth]
@@ -24,7 +28,8 @@ ChordLists == {<<It(<<"C">>, "", 0), It(<<"A">>, "m", 0), ItR(0), It(<<"G">>, "7
 Acts ==
   {[op |-> "add_notes", arg |-> a, v |-> v, dflt |-> FALSE] : a \in {N1, CH, RS, HI, LO}, v \in Vals} \cup
   {[op |-> "add_notes", arg |-> a, v |-> [b |-> 4, d |-> 0, r |-> <<1,1>>], dflt |-> TRUE] : a \in {N1, RS}} \cup
-  {[op |-> "add_notes", arg |-> MID, v |-> [b |-> 4, d |-> 0, r |-> <<1,1>>], dflt |-> FALSE]} \cup
+  {[op |-> "add_notes", arg |-> a, v |-> [b |-> 4, d |-> 0, r |-> <<1,1>>], dflt |-> FALSE] : a \in {MID, CB8, BS8, CB3}} \cup
+  {[op |-> "add_bar", key |-> <<"G">>, meter |-> <<0,0>>, filled |-> FALSE]} \cup          \* a free-time bar never fills: everything added afterwards stays in it
   {[op |-> "plus", arg |-> a] : a \in {N1, CH}} \cup
   {[op |-> "add_bar", key |-> k, meter |-> m, filled |-> f] : k \in {<<"G">>, <<"e","b">>}, m \in {<<3,4>>, <<6,8>>}, f \in BOOLEAN} \cup
   {[op |-> "from_chords", items |-> c, v |-> v] : c \in ChordLists, v \in {[b |-> 2, d |-> 0, r |-> <<1,1>>], [b |-> 3, d |-> 0, r |-> <<1,1>>]}}
